@@ -76,6 +76,7 @@ static void put_hex(const unsigned char *p, size_t n)
 static unsigned char *g_buf;
 static size_t g_bufsize;
 static int g_have_buf;
+static int g_buf_ok;      /* the last path op reported success */
 
 static void drop_buf(void) { if (g_have_buf) free(g_buf); g_buf = NULL; g_have_buf = 0; }
 
@@ -96,6 +97,7 @@ static unsigned char *new_buf(size_t size)
 
 static void put_path_result(int rc)
 {
+	g_buf_ok = (rc == MUGGLE_OK);
 	if (rc != MUGGLE_OK) { printf("err\n"); return; }
 	size_t l = 0;
 	while (l < g_bufsize && g_buf[l]) l++;
@@ -269,6 +271,8 @@ static void vh_op(int argc, char **argv)
 	}
 	if (strcmp(op, "buf") == 0 && argc == 1) {
 		if (!g_have_buf) { printf("none\n"); return; }
+		/* after a failure the contents are unspecified (writes were still watched by ASan) */
+		if (!g_buf_ok) { printf("errbuf\n"); return; }
 		put_hex(g_buf, g_bufsize); printf("\n");
 		return;
 	}
